@@ -33,12 +33,12 @@ def bases():
     out["verilog:base"] = (".v", vw.render(c06.base_vad()))
     out["verilog:chain"] = (".v", vw.render(c06.chain_vad(3), order=[2, 0, 1]))
     for b in ("B1", "B2"):
-        out["eblif:" + b] = (".eblif", ew.render(c18.base(b)))
+        out["eblif:" + b] = (".eblif", ew.render(c18.base(b), comments=(b == "B1")))
     out["eblif:B2-conn-first"] = (".eblif", ew.render(c18.base("B2"), order=[3, 4, 0, 1, 2]))
     # the other spellings / surrounding constructs of the supported subsets
     out["verilog:late"] = (".v", vw.render(c06.base_vad(), alt="late"))
     out["edif:E9-rich"] = (".edf", edif_writer.render(fdesigns.BASES["E9"](), rich=True))
-    out["eblif:B7"] = (".eblif", ew.render(c18.base("B7")))
+    out["eblif:B7"] = (".eblif", ew.render(c18.base("B7"), comments=True))
     return out
 
 
@@ -167,7 +167,9 @@ def structure(path):
                                   (p.inner_pin.port.name if hasattr(p, "inner_pin") else p.port.name)) for p in w.pins)
                           for c in d.cables for w in c.wires)
             out.append((lib.name, d.name, len(d.ports), len(d.cables), sorted(str(x.name) for x in d.children), nets))
-    return (sorted(out, key=repr), n.top_instance.reference.name if n.top_instance is not None and n.top_instance.reference is not None else None)
+    # what the file says about the netlist as a whole (name, comment lines, ...) belongs to this file alone
+    meta = sorted((str(k), repr(v)) for k, v in n._data.items())
+    return (sorted(out, key=repr), n.top_instance.reference.name if n.top_instance is not None and n.top_instance.reference is not None else None, meta)
 
 
 def graph_text(fmt, bodies, order):
@@ -331,7 +333,7 @@ def handle_worker(case):
             probs.append(("handle-accepted-what-the-file-name-rejects:" + tag, ref_outcome))
         elif canon.diff(ref_c, shape(n)):
             probs.append(("handle-parse-differs:" + tag, str(canon.diff(ref_c, shape(n)))[:300]))
-        for c, d in wf.wf_netlist(n):
+        for c, d in wf.wf_netlist(n) + wf.shared_metadata(n):
             probs.append(("malformed-netlist-returned:%s:%s" % (c, tag), d))
     return {"key": core.digest(case), "nontrivial": True, "outcome": outcome.split(":")[0], "problems": probs, "transitions": 2}
 
